@@ -199,6 +199,7 @@ class Module:
         self.propagated = propagate_simple_constants(self.tree)
         self.aliases_inlined = inline_pure_aliases(self.tree, unstable)
         self.tail_inlined = inline_tail_helpers(self.tree)
+        self.procedures_inlined = inline_procedure_helpers(self.tree)
         for parent in ast.walk(self.tree):
             for ch in ast.iter_child_nodes(parent):
                 ch._parent = parent
@@ -1843,6 +1844,87 @@ def computed_attribute_names(sources):
                     if isinstance(st, ast.FunctionDef):
                         names.add(st.name)
     return frozenset(names)
+
+
+def inline_procedure_helpers(tree):
+    """"Extract a few statements into a helper that returns nothing": a new module-level function without a returned
+    value (no `return <expr>`, no yield; a bare `return` only as its last statement), every use of which is a call
+    statement `F(<pure simple arguments>)`, is pasted at those statements (parameters substituted, locals renamed
+    apart) and dropped.  The functions that exist today are pinned and never dissolved."""
+    import copy
+    funcs = {st.name: st for st in tree.body if isinstance(st, ast.FunctionDef)}
+    done = []
+    uid = [0]
+    for fname, F in list(funcs.items()):
+        if fname in PINNED_FUNCTION_NAMES or F.decorator_list or F.args.vararg or F.args.kwarg or F.args.kwonlyargs \
+                or F.args.posonlyargs or F.args.defaults:
+            continue
+        body = [b for b in F.body if not (isinstance(b, ast.Expr) and isinstance(b.value, ast.Constant))]
+        if body and isinstance(body[-1], ast.Return) and body[-1].value is None:
+            body = body[:-1]
+        if not body:
+            continue
+        if any(isinstance(x, (ast.Return, ast.Yield, ast.YieldFrom, ast.FunctionDef, ast.Lambda, ast.Global, ast.Nonlocal))
+               for b in body for x in ast.walk(b)):
+            continue
+        if any(isinstance(x, ast.Name) and x.id == fname for b in body for x in ast.walk(b)):
+            continue
+        params = [a.arg for a in F.args.args]
+        if any(isinstance(x, ast.Name) and isinstance(x.ctx, ast.Store) and x.id in params for b in body for x in ast.walk(b)):
+            continue
+        refs = [n for n in ast.walk(tree) if isinstance(n, ast.Name) and n.id == fname and isinstance(n.ctx, ast.Load)]
+        sites = []
+        ok = True
+        for G in funcs.values():
+            if G is F:
+                continue
+            for st in ast.walk(G):
+                if isinstance(st, ast.Expr) and isinstance(st.value, ast.Call) and st.value.func in refs:
+                    c = st.value
+                    if c.keywords or len(c.args) != len(params) or not all(_pure_simple(a) or isinstance(a, ast.Constant) for a in c.args):
+                        ok = False
+                    sites.append((G, st))
+        if not ok or not sites or len(sites) != len(refs):
+            continue
+        loc = {n.id for b in body for n in ast.walk(b) if isinstance(n, ast.Name) and isinstance(n.ctx, ast.Store)}
+
+        def expand(stmts):
+            out = []
+            for st in stmts:
+                for fld in ('body', 'orelse', 'finalbody'):
+                    sub = getattr(st, fld, None)
+                    if isinstance(sub, list) and sub and isinstance(sub[0], ast.stmt):
+                        setattr(st, fld, expand(sub))
+                for h in getattr(st, 'handlers', []) or []:
+                    h.body = expand(h.body)
+                if any(st is s_ for _, s_ in sites):
+                    uid[0] += 1
+                    env = dict(zip(params, st.value.args))
+                    ren = {l: '_%s_%d_%s' % (fname.strip('_'), uid[0], l) for l in loc}
+
+                    class S(ast.NodeTransformer):
+                        def visit_Name(self, m):
+                            if m.id in ren:
+                                m.id = ren[m.id]
+                                return m
+                            if isinstance(m.ctx, ast.Load) and m.id in env:
+                                return ast.copy_location(copy.deepcopy(env[m.id]), m)
+                            return m
+                    for b in body:
+                        nb = S().visit(copy.deepcopy(b))
+                        for x in ast.walk(nb):
+                            if hasattr(x, 'lineno'):
+                                x.lineno = st.lineno
+                        out.append(nb)
+                else:
+                    out.append(st)
+            return out
+        for G in {g for g, _ in sites}:
+            G.body = expand(G.body)
+        tree.body.remove(F)
+        done.append(fname)
+    ast.fix_missing_locations(tree)
+    return done
 
 
 def inline_pure_aliases(tree, unstable=frozenset()):
